@@ -22,7 +22,7 @@ use crate::{FlightData, FlightDescriptor, SchemaAsIpc, error::Result};
 use arrow_array::{Array, ArrayRef, RecordBatch, RecordBatchOptions, UnionArray};
 use arrow_ipc::writer::{DictionaryTracker, IpcDataGenerator, IpcWriteContext, IpcWriteOptions};
 
-use arrow_schema::{DataType, Field, FieldRef, Fields, Schema, SchemaRef, UnionMode};
+use arrow_schema::{DataType, Field, FieldRef, Fields, Schema, SchemaRef, UnionFields, UnionMode};
 use bytes::Bytes;
 use futures::{Stream, StreamExt, ready, stream::BoxStream};
 
@@ -524,7 +524,16 @@ fn prepare_field_for_flight(
                 })
                 .unzip();
 
-            Field::new_union(field.name(), type_ids, new_fields, *mode)
+            // `Field::new_union` would drop the nullability and metadata of the field
+            Field::new(
+                field.name(),
+                DataType::Union(
+                    UnionFields::try_new(type_ids, new_fields).expect("Invalid UnionField"),
+                    *mode,
+                ),
+                field.is_nullable(),
+            )
+            .with_metadata(field.metadata().clone())
         }
         DataType::Dictionary(_, value_type) => {
             if !send_dictionaries {
